@@ -18,7 +18,9 @@ pub const LIMIT_S: u64 = 20;
 pub const WALL_LIMIT_S: u64 = 600;
 
 struct Slot {
-    /// (wall start, case, thread CPU time at start in ns, the worker's pthread id)
+    /// (wall start, case, sequence number of the record, the worker's pthread id). The thread's CPU clock is
+    /// NOT read when a case starts (a system call per case): the monitor reads it when it first sees a record
+    /// that is more than a second old, and measures the CPU time burnt from then on.
     cur: Mutex<Option<(Instant, String, u64, libc::pthread_t)>>,
 }
 
@@ -45,8 +47,31 @@ static NEXT: AtomicUsize = AtomicUsize::new(0);
 static STARTED: AtomicBool = AtomicBool::new(false);
 static JOURNAL: AtomicUsize = AtomicUsize::new(0); // base address of the mapping, 0 = none
 
+/// a thread's slot: taken from the free list on first use, given back when the thread ends (the call-history
+/// explorer creates hundreds of thousands of short-lived threads)
+struct MySlot(usize);
+impl Drop for MySlot {
+    fn drop(&mut self) {
+        if self.0 < SLOTS {
+            if let Some(t) = TABLE.get() {
+                *t[self.0].cur.lock().unwrap() = None;
+            }
+            free_list().lock().unwrap().push(self.0);
+        }
+    }
+}
+static FREE: OnceLock<Mutex<Vec<usize>>> = OnceLock::new();
+fn free_list() -> &'static Mutex<Vec<usize>> {
+    FREE.get_or_init(|| Mutex::new((0..SLOTS).rev().collect()))
+}
+
 thread_local! {
-    static MY: usize = NEXT.fetch_add(1, Ordering::Relaxed) % SLOTS;
+    static MY_SLOT: MySlot = MySlot(free_list().lock().unwrap().pop().unwrap_or(usize::MAX));
+}
+
+/// this thread's slot index, `None` if more than SLOTS threads are alive (the case is then not watched)
+fn my_slot() -> Option<usize> {
+    MY_SLOT.try_with(|m| m.0).ok().filter(|i| *i < SLOTS)
 }
 
 fn table() -> &'static Vec<Slot> {
@@ -123,24 +148,40 @@ pub fn start(on_hang: impl Fn(String) + Send + 'static) {
     if STARTED.swap(true, Ordering::SeqCst) {
         return;
     }
-    std::thread::spawn(move || loop {
-        std::thread::sleep(Duration::from_millis(500));
-        for s in table().iter() {
-            let g = s.cur.lock().unwrap();
-            if let Some((t, what, cpu0, tid)) = g.as_ref() {
+    std::thread::spawn(move || {
+        // per slot: (sequence number of the record first seen, the thread's CPU time then)
+        let mut seen: Vec<Option<(u64, Option<u64>)>> = vec![None; SLOTS];
+        loop {
+            std::thread::sleep(Duration::from_millis(500));
+            for (k, s) in table().iter().enumerate() {
+                let g = s.cur.lock().unwrap();
+                let Some((t, what, seq, tid)) = g.as_ref() else {
+                    seen[k] = None;
+                    continue;
+                };
                 let wall = t.elapsed();
-                if wall > Duration::from_secs(LIMIT_S) {
-                    let burnt = thread_cpu_ns(*tid).map(|now| now.saturating_sub(*cpu0));
-                    let hang = match burnt {
-                        Some(ns) => ns > LIMIT_S * 1_000_000_000 || wall > Duration::from_secs(WALL_LIMIT_S),
-                        None => wall > Duration::from_secs(3 * LIMIT_S),
-                    };
-                    if hang {
-                        let w = what.clone();
-                        drop(g);
-                        on_hang(w);
-                        return;
+                if wall < Duration::from_secs(1) {
+                    continue;
+                }
+                let now = thread_cpu_ns(*tid);
+                match seen[k] {
+                    Some((s0, cpu0)) if s0 == *seq => {
+                        let burnt = match (now, cpu0) {
+                            (Some(a), Some(b)) => Some(a.saturating_sub(b)),
+                            _ => None,
+                        };
+                        let hang = match burnt {
+                            Some(ns) => ns > LIMIT_S * 1_000_000_000 || wall > Duration::from_secs(WALL_LIMIT_S),
+                            None => wall > Duration::from_secs(3 * LIMIT_S),
+                        };
+                        if hang {
+                            let w = what.clone();
+                            drop(g);
+                            on_hang(w);
+                            return;
+                        }
                     }
+                    _ => seen[k] = Some((*seq, now)),
                 }
             }
         }
@@ -155,30 +196,55 @@ pub fn case<T>(what: &str, f: impl FnOnce() -> T) -> T {
 /// Run one case under the watchdog and the crash journal. `tag` says how to probe the case again
 /// (the format name for string inputs, "fold:<format>" for JSON lexical values).
 pub fn tagged<T>(tag: &str, what: &str, f: impl FnOnce() -> T) -> T {
-    let i = MY.with(|m| *m);
-    let t0 = Instant::now();
-    *table()[i].cur.lock().unwrap() = Some((t0, what.to_string(), clock_ns(libc::CLOCK_THREAD_CPUTIME_ID), unsafe { libc::pthread_self() }));
-    journal_set(i, tag, what);
+    let _g = enter(what);
+    let i = my_slot();
+    if let Some(i) = i {
+        journal_set(i, tag, what);
+    }
     let r = f();
-    journal_clear(i);
-    *table()[i].cur.lock().unwrap() = None;
-    SLOWEST_US.fetch_max(t0.elapsed().as_micros() as u64, Ordering::Relaxed);
+    if let Some(i) = i {
+        journal_clear(i);
+    }
     r
 }
 
-/// RAII form of `case`: the case is in flight until the guard is dropped
-pub struct Guard(usize, Instant);
+thread_local! {
+    /// nesting depth of guards on this thread: only the outermost one owns the slot, so the case that is
+    /// reported (and timed) is the outermost, most informative one; inner guards cost two TLS accesses
+    static DEPTH: std::cell::Cell<u32> = const { std::cell::Cell::new(0) };
+}
+
+/// RAII form of `case`: the case is in flight until the guard is dropped. Guards nest.
+pub struct Guard {
+    outermost: Option<(usize, Instant)>,
+}
 
 pub fn enter(what: &str) -> Guard {
-    let i = MY.with(|m| *m);
+    enter_with(|| what.to_string())
+}
+
+/// like `enter`, the label is only built if this guard turns out to be the outermost one
+pub fn enter_with(what: impl FnOnce() -> String) -> Guard {
+    let depth = DEPTH.with(|d| {
+        let v = d.get();
+        d.set(v + 1);
+        v
+    });
+    if depth > 0 {
+        return Guard { outermost: None };
+    }
+    let Some(i) = my_slot() else { return Guard { outermost: None } };
     let t0 = Instant::now();
-    *table()[i].cur.lock().unwrap() = Some((t0, what.to_string(), clock_ns(libc::CLOCK_THREAD_CPUTIME_ID), unsafe { libc::pthread_self() }));
-    Guard(i, t0)
+    *table()[i].cur.lock().unwrap() = Some((t0, what(), NEXT.fetch_add(1, Ordering::Relaxed) as u64, unsafe { libc::pthread_self() }));
+    Guard { outermost: Some((i, t0)) }
 }
 
 impl Drop for Guard {
     fn drop(&mut self) {
-        *table()[self.0].cur.lock().unwrap() = None;
-        SLOWEST_US.fetch_max(self.1.elapsed().as_micros() as u64, Ordering::Relaxed);
+        DEPTH.with(|d| d.set(d.get().saturating_sub(1)));
+        if let Some((i, t0)) = self.outermost {
+            *table()[i].cur.lock().unwrap() = None;
+            SLOWEST_US.fetch_max(t0.elapsed().as_micros() as u64, Ordering::Relaxed);
+        }
     }
 }
